@@ -17,6 +17,7 @@ import (
 	"net"
 	"net/http"
 	"path/filepath"
+	"reflect"
 	"sort"
 	"strconv"
 	"strings"
@@ -120,12 +121,35 @@ type sendFileStore struct {
 	config            SendFile
 }
 
+// sameFS reports whether two file systems are the same value. Unlike ==, it does not panic
+// when the dynamic type cannot be compared (a map such as fstest.MapFS, a slice, a func).
+func sameFS(a, b fs.FS) bool {
+	va, vb := reflect.ValueOf(a), reflect.ValueOf(b)
+	if !va.IsValid() || !vb.IsValid() {
+		return va.IsValid() == vb.IsValid()
+	}
+	if va.Type() != vb.Type() {
+		return false
+	}
+	if va.Comparable() {
+		return a == b
+	}
+	switch va.Kind() { //nolint:exhaustive // only reference kinds can be told apart by their pointer
+	case reflect.Map, reflect.Func:
+		return va.Pointer() == vb.Pointer()
+	case reflect.Slice:
+		return va.Pointer() == vb.Pointer() && va.Len() == vb.Len()
+	default:
+		return false
+	}
+}
+
 // compareConfig compares the current SendFile config with the new one
 // and returns true if they are different.
 //
 // Here we don't use reflect.DeepEqual because it is quite slow compared to manual comparison.
 func (sf *sendFileStore) compareConfig(cfg SendFile) bool {
-	if sf.config.FS != cfg.FS {
+	if !sameFS(sf.config.FS, cfg.FS) {
 		return false
 	}
 
